@@ -6,6 +6,7 @@ use std::cmp::min;
 use vstd::std_specs::hash::*;
 use vstd::std_specs::cmp::*;
 use std::cmp::Ordering;
+use vstd::arithmetic::power2::pow2;
 // rule D4: logging becomes a no-op (arguments are not evaluated)
 #[allow(unused_macros)]
 mod log {
